@@ -201,47 +201,64 @@ fn c05_switch(k: usize) {
 harness!(c05_switch_k1, unwind 5, wmul_ln, { c05_switch(1) });
 harness!(c05_switch_k2, unwind 5, wmul_ln, { c05_switch(2) });
 
-/// Skipping phase (i >= 4k): an item below skip_until changes nothing and consumes no randomness; an item
-/// at/after it is written to a slot drawn from exactly k values, and the next gap is drawn: the following
-/// item is certainly accepted when u > 1/(1+p) and certainly skipped when u < 1 - p/(1-p), p = k/(i+2)
-/// (elementary bounds on ln that hold for any libm).
-fn c05_gap_phase(k: usize) {
+/// Skipping phase (i >= 4k), item below skip_until: nothing changes and no randomness is consumed.
+fn c05_gap_skipped(k: usize) {
     rng_reset();
     let (mut r, i, ids, _len) = arb(k, None);
     asm!(i >= 4 * k);
     let su = r.verif_skip_until();
+    asm!(i < su);
     r.add(i as u32);
     let v = r.reservoir();
-    if i < su {
-        chk!("skipped_item_consumes_no_randomness", rng_words() == 0);
-        chk!("skipped_item_keeps_skip_until", r.verif_skip_until() == su);
-        for s in 0..k {
-            chk!("skipped_item_changes_nothing", v[s] == ids[s]);
-        }
-    } else {
-        chk!("accepted_item_one_slot_draw", rng_calls() == 1);
-        chk!("accepted_item_slot_from_k_values", rng_last_range() == k);
-        let j = rng_last_draw();
-        for s in 0..k {
-            chk!("accepted_item_written_to_drawn_slot", v[s] == if s == j { i as u32 } else { ids[s] });
-        }
-        chk!("gap_drawn_after_acceptance", rng_u64_words() == 2);
-        let su2 = r.verif_skip_until();
-        chk!("next_acceptance_not_in_the_past", su2 >= i + 1);
-        let u = u_of_word(rng_last_u64());
-        let p = (k as f64) / ((i + 2) as f64);
-        if u > 1.0 / (1.0 + p) + 1e-9 {
-            chk!("gap_zero_when_u_close_to_one", su2 == i + 1);
-        }
-        if u < 1.0 - p / (1.0 - p) - 1e-9 {
-            chk!("gap_positive_when_u_small", su2 >= i + 2);
-        }
-        cov!("next_item_accepted", su2 == i + 1);
-        cov!("next_item_skipped", su2 >= i + 2);
+    chk!("skipped_item_consumes_no_randomness", rng_words() == 0);
+    chk!("skipped_item_keeps_skip_until", r.verif_skip_until() == su);
+    for s in 0..k {
+        chk!("skipped_item_changes_nothing", v[s] == ids[s]);
     }
-    cov!("item_skipped", i < su);
-    cov!("item_accepted", i >= su);
 }
-harness!(c05_gap_phase_k1, unwind 5, wmul_ln, { c05_gap_phase(1) });
-harness!(c05_gap_phase_k2, unwind 5, wmul_ln, { c05_gap_phase(2) });
-harness!(c05_gap_phase_k3, unwind 5, wmul_ln, { c05_gap_phase(3) });
+harness!(c05_gap_skipped_k1, unwind 5, wmul_ln, { c05_gap_skipped(1) });
+harness!(c05_gap_skipped_k3, unwind 5, wmul_ln, { c05_gap_skipped(3) });
+
+/// Skipping phase, item at/after skip_until (concrete stream position i, every RNG outcome): written to a slot drawn
+/// from exactly k values; then the next gap is drawn: the following item is certainly accepted when u > 1/(1+p) and
+/// skipped for exactly one item when 1/(1+2p) < u < 1 - p/(1-p), p = k/(i+2) (elementary bounds on ln that hold for any libm).
+fn c05_gap_accepted(k: usize, i: usize) {
+    rng_reset();
+    let mut ids = [0u32; 3];
+    let mut v: Vec<u32> = Vec::with_capacity(k);
+    for s in 0..k {
+        ids[s] = s as u32;
+        v.push(s as u32);
+    }
+    let su = any_usize();
+    asm!(su <= i);
+    let mut r = R::verif_from_parts(k, SymRng, v, i, su);
+    r.add(i as u32);
+    let v = r.reservoir();
+    chk!("accepted_item_one_slot_draw", rng_calls() == 1);
+    chk!("accepted_item_slot_from_k_values", rng_last_range() == k);
+    let j = rng_last_draw();
+    for s in 0..k {
+        chk!("accepted_item_written_to_drawn_slot", v[s] == if s == j { i as u32 } else { ids[s] });
+    }
+    chk!("gap_drawn_after_acceptance", rng_u64_words() == 2);
+    let su2 = r.verif_skip_until();
+    // observational form: the following item (position i+1) is accepted iff i+1 >= skip_until. The two bands of u
+    // below are those where the gap g = floor(ln u / ln(1-p)) is 0 resp. exactly 1 for ANY libm (elementary bounds
+    // 1-1/x <= ln x <= x-1), so a counterexample inside them reproduces natively whatever ln approximation is used.
+    let u = u_of_word(rng_last_u64());
+    let p = (k as f64) / ((i + 2) as f64);
+    if u > 1.0 / (1.0 + p) + 1e-9 {
+        chk!("gap_zero_when_u_close_to_one", su2 <= i + 1);
+    }
+    if u > 1.0 / (1.0 + 2.0 * p) + 1e-9 && u < 1.0 - p / (1.0 - p) - 1e-9 {
+        chk!("gap_one_skips_exactly_one_item", su2 == i + 2);
+    }
+    cov!("next_item_accepted", su2 <= i + 1);
+    cov!("next_item_skipped", su2 >= i + 2);
+    cov!("band_gap_one", u > 1.0 / (1.0 + 2.0 * p) + 1e-9 && u < 1.0 - p / (1.0 - p) - 1e-9);
+}
+harness!(c05_gap_accepted_k1_i4, unwind 5, wmul_ln, { c05_gap_accepted(1, 4) });
+harness!(c05_gap_accepted_k2_i8, unwind 5, wmul_ln, { c05_gap_accepted(2, 8) });
+harness!(c05_gap_accepted_k2_i21, unwind 5, wmul_ln, { c05_gap_accepted(2, 21) });
+harness!(c05_gap_accepted_k3_i100, unwind 5, wmul_ln, { c05_gap_accepted(3, 100) });
